@@ -22,10 +22,10 @@ PROGRAMS = [
     ("three-senders", {"compress": True, "threads": {"A": [["send_text", T + "A1"]], "B": [["send_binary", list((T + "B1").encode())]], "C": [["send_ping", [9]], ["send_text", T + "C2"]]}}),
 ]
 BQ = {name: 1 for name, _ in PROGRAMS}
-BT = {"two-compressed-senders-no-takeover": 2, "sender-vs-inflating-loop": 2, "incompressible-then-repeated": 1, "large-frame-vs-small": 1, "two-senders": 2, "two-compressed-senders": 2, "binary-vs-text-compressed": 2, "sender-vs-loop": 2, "three-senders": 1}
+BT = {"two-compressed-senders-no-takeover": 1, "sender-vs-inflating-loop": 1, "incompressible-then-repeated": 1, "large-frame-vs-small": 1, "two-senders": 2, "two-compressed-senders": 2, "binary-vs-text-compressed": 2, "sender-vs-loop": 2, "three-senders": 1}
 RULE = ('every schedule with at most 1-2 pre-emptions (line granularity, stateless exhaustive search) of 9 thread programs (2-3 threads x 1-2 sends each: '
         'send_text / send_binary / send_ping / the loop\'s pong and auto-ping; with and without negotiated compression, context takeover), every sendall split '
-        'in two steps; every schedule with one pre-emption at OPCODE granularity for the two-thread programs; thorough adds 6000 random opcode-granular schedules; non-trivial = distinct (program, wire order, call results)')
+        'in two steps; every schedule with one pre-emption at OPCODE granularity for the two-thread programs; thorough adds 3000 random opcode-granular schedules; non-trivial = distinct (program, wire order, call results)')
 
 
 def run(tier, seed):
